@@ -3,6 +3,7 @@ package main
 import (
 	"fmt"
 	"reflect"
+	"sort"
 	"strings"
 
 	"github.com/mfcochauxlaberge/jsonapi"
@@ -528,7 +529,53 @@ func (m c18) typeCopy(c *Ctx, t *TypeSpec) {
 	soft := *t
 	soft.Wrapped = false
 	var problem string
+	// what Fields() must list: the names in the type's own two maps
+	fieldsProblem := func(who string, ty *jsonapi.Type) string {
+		want := []string{}
+		for n := range ty.Attrs {
+			want = append(want, n)
+		}
+		for n := range ty.Rels {
+			want = append(want, n)
+		}
+		sort.Strings(want)
+		got := append([]string{}, ty.Fields()...)
+		sort.Strings(got)
+		if strings.Join(got, "\x00") != strings.Join(want, "\x00") {
+			return fmt.Sprintf("fields-list-wrong: Fields() of the %s lists %q, its attributes and relationships are %q", who, got, want)
+		}
+		return ""
+	}
 	if pi := Guard(func() {
+		// Fields() is called before copying and after every edit on both sides (a list remembered between calls
+		// must follow the type it belongs to, not the one it was copied from)
+		ft := buildType(&soft)
+		_ = ft.Fields()
+		fc := ft.Copy()
+		for _, n := range soft.FieldNames() {
+			fc.RemoveAttr(n)
+			fc.RemoveRel(n)
+			if problem = fieldsProblem("copy after removing "+n, &fc); problem != "" {
+				return
+			}
+			if problem = fieldsProblem("source after the copy lost "+n, &ft); problem != "" {
+				return
+			}
+		}
+		ft2 := buildType(&soft)
+		_ = ft2.Fields()
+		fc2 := ft2.Copy()
+		_ = fc2.Fields()
+		for _, n := range soft.FieldNames() {
+			ft2.RemoveAttr(n)
+			ft2.RemoveRel(n)
+			if problem = fieldsProblem("source after removing "+n, &ft2); problem != "" {
+				return
+			}
+			if problem = fieldsProblem("copy after the source lost "+n, &fc2); problem != "" {
+				return
+			}
+		}
 		typ := buildType(&soft)
 		cp := typ.Copy()
 		if typeFingerprint(&typ) != typeFingerprint(&cp) && !(len(typ.Attrs) == 0 || len(typ.Rels) == 0) {
